@@ -39,16 +39,20 @@ impl UnaryParser {
                         _   => 1_f64
                     };
 
-                    match token.deref() {
-                        TokenType::Number(double, number_type)         => return Ok(SmartCalcAstType::Item(Rc::new(NumberItem(double * opt, *number_type)))),
-                        TokenType::Variable(variable)     => return Ok(SmartCalcAstType::PrefixUnary(operator, Rc::new(SmartCalcAstType::Variable(variable.clone())))),
-                        TokenType::Percent(percent)       => return Ok(SmartCalcAstType::PrefixUnary(operator, Rc::new(SmartCalcAstType::Item(Rc::new(PercentItem(*percent)))))),
-                        TokenType::Money(money, currency) => return Ok(SmartCalcAstType::PrefixUnary(operator, Rc::new(SmartCalcAstType::PrefixUnary(operator, Rc::new(SmartCalcAstType::Item(Rc::new(MoneyItem(*money, currency.clone())))))))),
+                    let ast = match token.deref() {
+                        TokenType::Number(double, number_type)         => SmartCalcAstType::Item(Rc::new(NumberItem(double * opt, *number_type))),
+                        TokenType::Variable(variable)     => SmartCalcAstType::PrefixUnary(operator, Rc::new(SmartCalcAstType::Variable(variable.clone()))),
+                        TokenType::Percent(percent)       => SmartCalcAstType::PrefixUnary(operator, Rc::new(SmartCalcAstType::Item(Rc::new(PercentItem(*percent))))),
+                        TokenType::Money(money, currency) => SmartCalcAstType::PrefixUnary(operator, Rc::new(SmartCalcAstType::PrefixUnary(operator, Rc::new(SmartCalcAstType::Item(Rc::new(MoneyItem(*money, currency.clone()))))))),
                         _ => {
                             parser.set_index(index_backup);
                             return Err(("Unary works with number", 0, 0));
                         }
                     };
+
+                    /* The signed operand is part of this node, continue after it */
+                    parser.consume_token();
+                    return Ok(ast);
                 },
                  _=> return Ok(SmartCalcAstType::None)
             }
